@@ -1,0 +1,142 @@
+//go:build verif && (verif_all || verif_c03)
+// +build verif
+// +build verif_all verif_c03
+
+package gocql
+
+// Verification hooks (build tag `verif`) for property C03: the external harness describes a
+// request with exported plain structs; VerifBuildRequest fills the unexported frame struct and
+// runs the real frame builder exactly the way Conn.exec does (newFramer, optional trace(),
+// buildFrame, framer.buf). Add-only.
+
+import "fmt"
+
+// VerifQueryValue mirrors queryValues.
+type VerifQueryValue struct {
+	Name    string
+	Value   []byte // nil = null
+	IsUnset bool
+}
+
+// VerifQueryParams mirrors queryParams.
+type VerifQueryParams struct {
+	Consistency           uint16
+	SkipMeta              bool
+	Values                []VerifQueryValue
+	PageSize              int
+	PagingState           []byte
+	SerialConsistency     uint16
+	DefaultTimestamp      bool
+	DefaultTimestampValue int64
+	Keyspace              string
+}
+
+// VerifBatchStatement mirrors batchStatment.
+type VerifBatchStatement struct {
+	PreparedID []byte
+	Statement  string
+	Values     []VerifQueryValue
+}
+
+// VerifRequest is one logical request in the shape the frame builders take it.
+// Kind: startup | options | auth | register | query | prepare | execute | batch.
+type VerifRequest struct {
+	Kind          string
+	Options       map[string]string // startup
+	Data          []byte            // auth
+	Events        []string          // register
+	Statement     string            // query, prepare
+	PreparedID    []byte            // execute
+	Keyspace      string            // prepare
+	Params        VerifQueryParams  // query, execute
+	CustomPayload map[string][]byte // query, prepare, execute, batch
+
+	BatchType             byte
+	Statements            []VerifBatchStatement
+	Consistency           uint16
+	SerialConsistency     uint16
+	DefaultTimestamp      bool
+	DefaultTimestampValue int64
+}
+
+func verifValues(in []VerifQueryValue) []queryValues {
+	if in == nil {
+		return nil
+	}
+	out := make([]queryValues, len(in))
+	for i, v := range in {
+		out[i] = queryValues{value: v.Value, name: v.Name, isUnset: v.IsUnset}
+	}
+	return out
+}
+
+func verifParams(p *VerifQueryParams) queryParams {
+	return queryParams{
+		consistency:           Consistency(p.Consistency),
+		skipMeta:              p.SkipMeta,
+		values:                verifValues(p.Values),
+		pageSize:              p.PageSize,
+		pagingState:           p.PagingState,
+		serialConsistency:     SerialConsistency(p.SerialConsistency),
+		defaultTimestamp:      p.DefaultTimestamp,
+		defaultTimestampValue: p.DefaultTimestampValue,
+		keyspace:              p.Keyspace,
+	}
+}
+
+func verifFrameBuilder(r *VerifRequest) frameBuilder {
+	switch r.Kind {
+	case "startup":
+		return &writeStartupFrame{opts: r.Options}
+	case "options":
+		return &writeOptionsFrame{}
+	case "auth":
+		return &writeAuthResponseFrame{data: r.Data}
+	case "register":
+		return &writeRegisterFrame{events: r.Events}
+	case "query":
+		return &writeQueryFrame{statement: r.Statement, params: verifParams(&r.Params), customPayload: r.CustomPayload}
+	case "prepare":
+		return &writePrepareFrame{statement: r.Statement, keyspace: r.Keyspace, customPayload: r.CustomPayload}
+	case "execute":
+		return &writeExecuteFrame{preparedID: r.PreparedID, params: verifParams(&r.Params), customPayload: r.CustomPayload}
+	case "batch":
+		st := make([]batchStatment, len(r.Statements))
+		for i, s := range r.Statements {
+			st[i] = batchStatment{preparedID: s.PreparedID, statement: s.Statement, values: verifValues(s.Values)}
+		}
+		return &writeBatchFrame{
+			typ:                   BatchType(r.BatchType),
+			statements:            st,
+			consistency:           Consistency(r.Consistency),
+			serialConsistency:     SerialConsistency(r.SerialConsistency),
+			defaultTimestamp:      r.DefaultTimestamp,
+			defaultTimestampValue: r.DefaultTimestampValue,
+			customPayload:         r.CustomPayload,
+		}
+	}
+	panic(fmt.Sprintf("verif: unknown request kind %q", r.Kind))
+}
+
+// VerifBuildRequest builds the request frame as Conn.exec does (no compressor) and returns
+// a copy of the framer's buffer, or the builder's error. Panics of the builder propagate.
+func VerifBuildRequest(version byte, tracing bool, stream int, r *VerifRequest) ([]byte, error) {
+	req := verifFrameBuilder(r)
+	framer := newFramer(nil, version)
+	if tracing {
+		framer.trace()
+	}
+	if err := req.buildFrame(framer, stream); err != nil {
+		return nil, err
+	}
+	out := make([]byte, len(framer.buf))
+	copy(out, framer.buf)
+	return out, nil
+}
+
+// VerifC03DisableControlConn sets the internal testing switch that makes a Session use only
+// the configured hosts (no control connection, no system table queries).
+func VerifC03DisableControlConn(cfg *ClusterConfig) { cfg.disableControlConn = true }
+
+// VerifC03DriverInfo returns the DRIVER_NAME / DRIVER_VERSION values sent in STARTUP.
+func VerifC03DriverInfo() (name, version string) { return driverName, driverVersion }
